@@ -310,6 +310,21 @@ namespace
 
         // Rebuild an owning slot after a delivered allocation failure: the property says nothing about
         // bad_alloc, so the only requirement kept is that the object can still be assigned to and destroyed.
+        // A moved-from bitset is in an unspecified state - but a state: size(), block_count() and the bits must describe
+        // one bit sequence (vector<bool>'s moved-from object is such a sequence too, usually the empty one).  Whatever it
+        // holds becomes its model value and the history goes on with it: resize, push_back, ... must work on it.
+        void settle_moved_from(int t)
+        {
+            Suspend nofaults;
+            const BSet& cx = own[t].get();
+            size_t n = cx.size();
+            if (cx.block_count() != nblocks(n))
+                viol("invariant", "moved-from", "owner " + std::to_string(t) + ": a moved-from bitset reports size() == " + std::to_string(n) + " with block_count() == " + std::to_string(cx.block_count()) + ": it no longer describes a bit sequence");
+            Model m(n);
+            for (size_t i = 0; i < n; ++i) m[i] = static_cast<bool>(cx[i]);
+            om[t] = m;
+            SIM_PROBE("moved_from_bitset_used_further");
+        }
         void recover(int t)
         {
             Suspend nofaults;
@@ -391,8 +406,7 @@ namespace
                 case 7: new (p) BSet(static_cast<const xtl::xdynamic_bitset_base<View>&>(vh[vsrc].get())); nm = reg[vreg[vsrc]].m; break;
                 default:
                     new (p) BSet(std::move(own[src].get())); nm = om[src];
-                    // the moved-from source is unspecified: give it a definite value again
-                    { Suspend s; own[src].get() = BSet(); om[src].clear(); }
+                    settle_moved_from(src);
                     break;
                 }
             }
@@ -847,7 +861,7 @@ namespace
                 BSet& y = own[p].get();
                 bool done = guarded(t, [&] { if (move) x = std::move(y); else x = static_cast<const BSet&>(y); }, false);   // defaulted member-wise assignment: no canonical state promised
                 if (done) om[t] = om[p]; else SIM_PROBE("allocation_failure_in_copy_assignment");
-                if (move) { Suspend s; y = BSet(); om[p].clear(); }
+                if (move && done) settle_moved_from(p);
             }
             ++run.changing;
             check_all();
